@@ -39,10 +39,10 @@ type emitted struct {
 }
 
 type host struct {
-	h  *wire.Host
-	mu sync.Mutex
+	h   *wire.Host
+	mu  sync.Mutex
 	out []emitted
-	t0 time.Time
+	t0  time.Time
 }
 
 func newHost() *host {
@@ -101,7 +101,19 @@ func answering(k int) {
 		}
 		bad = true
 	}
+	second := true // 10.0.0.7 is currently assigned
 	for i := 0; i < 40 && !bad; i++ {
+		if r.Chance(1, 10) { // the second address is removed / assigned again: answers must follow
+			second = !second
+			var e *tcpip.Error
+			if second {
+				e = x.h.S.AddAddress(1, ipv4.ProtocolNumber, "\x0a\x00\x00\x07")
+			} else {
+				e = x.h.S.RemoveAddress(1, "\x0a\x00\x00\x07")
+			}
+			trace = append(trace, fmt.Sprintf("address 10.0.0.7 assigned=%v (%v)", second, e))
+			run.Count("own_address_toggles", 1)
+		}
 		spa := [4]byte{10, 0, 0, byte(20 + r.Intn(6))}
 		var sha [6]byte
 		copy(sha[:], r.Bytes(6))
@@ -111,7 +123,7 @@ func answering(k int) {
 		}
 		targets := [][4]byte{ip4b(wire.AddrA4), {10, 0, 0, 7}, {10, 0, 0, 99}, {192, 168, 1, 1}, spa}
 		tpa := targets[r.Intn(len(targets))]
-		own := tpa == ip4b(wire.AddrA4) || tpa == [4]byte{10, 0, 0, 7}
+		own := tpa == ip4b(wire.AddrA4) || (second && tpa == [4]byte{10, 0, 0, 7})
 		op := uint16(1 + r.Intn(2))
 		x.take()
 		switch r.Intn(8) {
@@ -247,7 +259,7 @@ func waiting(k int) {
 		return
 	}
 	answerAfter := []int{0, 1, 2, 3, 99}[r.Intn(5)] // answer the n-th request (99 = stay silent)
-	lateMs := []int{0, 1, 400, 900}[r.Intn(4)] // well inside the 1 s retry interval
+	lateMs := []int{0, 1, 400, 900}[r.Intn(4)]      // well inside the 1 s retry interval
 	useTCP := r.Chance(1, 3)
 	nh := tcpip.Address([]byte{10, 0, 0, byte(30 + r.Intn(100))})
 	var nhm [6]byte
@@ -478,6 +490,22 @@ func ndp(k int) {
 	la, _, err := x.h.S.GetLinkAddress(1, tcpip.Address(p6[:]), wire.AddrA6, ipv6.ProtocolNumber, &sleep.Waker{})
 	if err != nil || !bytes.Equal([]byte(la), pm[:]) {
 		run.Violation("C12/ndp/not-learned", fmt.Sprintf("after a neighbour advertisement from %x / %x the cache says %x, %v", p6, pm, []byte(la), err), k)
+	}
+	// the solicited address is removed: the same solicitation must now go unanswered
+	if own && r.Bool() {
+		if e := x.h.S.RemoveAddress(1, wire.AddrA6); e == nil {
+			x.take()
+			x.h.L.Inject(ipv6.ProtocolNumber, ip.Bytes(true), tcpip.LinkAddress(pm[:]))
+			rawpeer.Settle()
+			for _, o := range x.take() {
+				if p, err := rfc.ParseIPv6(o.data); o.proto == uint16(ipv6.ProtocolNumber) && err == nil && p.Next == rfc.ProtoICMPv6 {
+					if mm, _ := rfc.ParseICMPv6(p.Payload, p.Src, p.Dst); mm.Type == 136 {
+						run.Violation("C12/ndp/answered-for-removed-address", fmt.Sprintf("neighbour solicitation for %x, which was removed from the interface after having been solicited once, is still answered", target), k)
+					}
+				}
+			}
+			run.Count("ndp_removed_address_probes", 1)
+		}
 	}
 	run.Count("ndp_scenarios", 1)
 	run.Case(fw.Hash("ndp", own), true)
